@@ -532,3 +532,17 @@ def deep_sources(prog, f, operand, depth=0, seen=None):
         else:
             out.add(key)
     return out
+
+
+def escapes(fn, start, need, target):
+    """can control get from `start` to `target` without entering a block of `need`? (`start` itself counts: if it is in `need` nothing escapes)"""
+    seen, stack = set(), [start]
+    while stack:
+        x = stack.pop()
+        if x in seen or x in need:
+            continue
+        seen.add(x)
+        if x == target:
+            return True
+        stack.extend(fn.succ[x])
+    return False
